@@ -1030,7 +1030,9 @@ def _dropout(func, args, kwargs):
     def g(x):
         b = fresh("dropmask", B)
         return z3.If(b, T.mul(scale, toreal(x)), rv(0))
-    return like(a, apply1(g, P(a)))
+    out = like(a, apply1(g, P(a)))
+    C().notes.setdefault("random_draws", []).append(("dropout", out))
+    return out
 
 
 @handles("batch_norm")
